@@ -59,6 +59,7 @@ var vfC17FileNames = []string{
 	"userfilters/x[1].txt",
 	"userfilters/x1.txt",
 	"top.txt",
+	"allowed/LIST2.txt",
 }
 
 // vfC17MissingNames are names of files that do not exist, relative to the root.
@@ -266,7 +267,7 @@ type vfC17Pattern struct {
 var vfC17PatternKinds = []string{
 	"exact", "exact", "dirstar", "dirstar", "dirstar", "dirext", "question", "class", "classrange", "negclass",
 	"anydir", "twostar", "deep", "relstar", "barestar", "dironly", "trailslash", "unclean", "rootdepth",
-	"prefixstar", "prefixdir", "escaped", "classsep",
+	"prefixstar", "prefixdir", "escaped", "classsep", "upper",
 }
 
 // vfC17DrawPattern builds one pattern over the tree rooted at root.
@@ -316,6 +317,11 @@ func vfC17DrawPattern(t *rapid.T, root, label string) (p vfC17Pattern) {
 		p.Text = root + "/" + d + "*/list1.txt"
 	case "escaped":
 		p.Text = root + "/userfilters/x\\[1\\].txt"
+	case "upper":
+		// Matching is case-sensitive: this allows nothing of the tree but
+		// <root>/allowed/LIST2.txt in its second form.
+		p.Text = rapid.SampledFrom([]string{root + "/ALLOWED/*", root + "/allowed/LIST?.txt", root + "/allowed/List1.txt"}).
+			Draw(t, label+"_upper")
 	case "classsep":
 		// A class may match the separator (path.Match puts no restriction on
 		// classes), so this matches <root>/<d>/list1.txt.
@@ -329,7 +335,7 @@ func vfC17DrawPattern(t *rapid.T, root, label string) (p vfC17Pattern) {
 
 // vfC17DrawPatterns draws the pattern list of a configuration.
 func vfC17DrawPatterns(t *rapid.T, root, label string) (ps []vfC17Pattern) {
-	n := rapid.SampledFrom([]int{0, 0, 1, 1, 1, 1, 2, 2, 2, 3, 4}).Draw(t, label+"_n")
+	n := rapid.SampledFrom([]int{0, 0, 1, 1, 1, 1, 1, 2, 2, 2, 2, 3, 4}).Draw(t, label+"_n")
 	for i := 0; i < n; i++ {
 		ps = append(ps, vfC17DrawPattern(t, root, fmt.Sprintf("%s%d", label, i)))
 	}
@@ -568,6 +574,11 @@ type vfC17Stub struct {
 }
 
 func (s *vfC17Stub) token(u string) (tok string) {
+	// The scheme is case-insensitive; net/url normalises it.
+	if pu, err := url.Parse(u); err == nil {
+		u = pu.String()
+	}
+
 	s.mu.Lock()
 	defer s.mu.Unlock()
 
@@ -638,8 +649,9 @@ type vfC17World struct {
 	cwd     string
 	files   []*vfC17File
 
-	patterns []vfC17Pattern
-	d        *DNSFilter
+	patterns   []vfC17Pattern
+	generation int
+	d          *DNSFilter
 	handlers map[string]http.HandlerFunc
 	stub     *vfC17Stub
 
@@ -787,15 +799,34 @@ func (w *vfC17World) start(patterns []vfC17Pattern, block, allow []FilterYAML) {
 	// this channel; the harness does not start that goroutine (it would make
 	// the moment of the reload depend on the scheduler) and reloads itself.
 	d.filtersInitializerChan = make(chan filtersInitializerParams, 1)
+	// New seeds the list IDs from the wall clock and does not look at the IDs
+	// in use, so two starts within one second (which only a test does) hand
+	// out the same IDs twice.  Give every start its own range instead; this
+	// also keeps the clock out of the case.
+	w.generation++
+	d.idGen = newIDGenerator(int32(1000 * w.generation))
 	d.RegisterFilteringHandlers()
 	w.d = d
-	w.reload()
+	if len(block)+len(allow) > 0 {
+		w.reload()
+	}
 	w.markReadable()
 }
 
 // reload makes the engine use the lists of the configuration now.
 func (w *vfC17World) reload() {
 	w.guard("EnableFilters", func() { w.d.EnableFilters(false) })
+}
+
+// settle does the reload a handler asked the updates goroutine for, if any.
+// (Each reload costs a forced garbage collection inside the code under test,
+// so it is done only when something may have changed.)
+func (w *vfC17World) settle() {
+	select {
+	case <-w.d.filtersInitializerChan:
+		w.reload()
+	default:
+	}
 }
 
 // guard turns a panic of the code under test into a failure.
@@ -1045,10 +1076,18 @@ func (w *vfC17World) inForce(what string, loc vfC17Loc, l *vfC17ListJSON) {
 		return
 	}
 
+	// An allowlist rule wins over a blocklist rule.
+	want := "FilteredBlackList"
+	st, _ := w.status()
+	for _, x := range st.WhitelistFilters {
+		if xd, xok := w.cached(x.ID); x.Enabled && xok && strings.Contains(xd, vfC17MarkerHost(tok)) {
+			want = "NotFilteredWhiteList"
+		}
+	}
 	c := w.checkHost(vfC17MarkerHost(tok))
-	if c.Reason != "FilteredBlackList" && c.Reason != "NotFilteredWhiteList" {
-		w.t.Fatalf("%s: list %q (id %d) was accepted but its marker rule is not in force: %s is %s",
-			what, loc.Raw, l.ID, vfC17MarkerHost(tok), c.Reason)
+	if c.Reason != want {
+		w.t.Fatalf("%s: list %q (id %d) was accepted but its marker rule is not in force: %s is %s, want %s",
+			what, loc.Raw, l.ID, vfC17MarkerHost(tok), c.Reason, want)
 	}
 }
 
